@@ -62,8 +62,9 @@ reg('C16', 'sched', 'model_checking',
     'Stateless exhaustive exploration of thread interleavings of the real code: 2-3 real threads under a baton scheduler, a scheduling point before '
     'every source line executed inside athlib/ (sys.settrace), all schedules with at most 1-2 pre-emptions (iterative context bounding, per-scenario '
     'bound in the evidence), first-call and warmed-up starting states restored generically before every execution; each thread result is compared '
-    'with the same call run alone. Violating schedules are replayed twice for determinism before being reported.',
-    'Line granularity (a switch inside one source line is not modelled); bounded pre-emptions; CPython 3.12 sys.settrace delivers every athlib line; '
+    'with the same call run alone. Violating schedules are replayed twice for determinism before being reported. Eight short scenarios are explored at '
+    'bytecode granularity (sys.monitoring INSTRUCTION events). About 70 scenarios: same and different rows / events / graders / cache keys, junior scoring functions too.',
+    'Line granularity except in the bytecode-granularity scenarios; bounded pre-emptions; the scenario list is a covering choice; CPython 3.12 sys.settrace delivers every athlib line; '
     'locks created at athlib import are replaced by baton-aware locks, Condition/Event unsupported.',
     'stateless model checking of the implementation (controlled scheduler, iterative pre-emption bounding)', 'DESIGN.md 2.3, 3/C16')
 
@@ -72,7 +73,8 @@ reg('C04', 'rxmc', 'model_checking',
     'the patterns use; for every union in the statement the product (composite x parts) is explored completely and every reachable state must have '
     'composite-accepting == OR(parts); for every pair of measurement kinds the product must have no jointly accepting state. This decides the property '
     'for all strings of any length. Every automaton is bound to the real pattern by replaying access strings, one-symbol extensions (every member of '
-    'the small classes) and all strings up to length 3-4 over the class representatives through re.',
+    'the small classes) and all strings up to length 3-4 over the class representatives through re. If a tree uses a regex construct the automata do not '
+    'model, the check falls back to a bounded enumeration of ~4 million candidate strings judged by the real compiled patterns (recorded as not exhaustive).',
     'Trusts re._parser as the reading of the pattern text and CPython re to implement regular semantics for these constructs (checked: only literals, '
     'classes, branches, groups, greedy repeats, ^ and $; no flags).',
     'symbolic product-automaton reachability (explicit-state over a finite exact quotient) + conformance replay against re', 'DESIGN.md 2.2, 3/C04')
@@ -152,7 +154,9 @@ reg('C19', 'hist', 'model_checking',
     'expect_failure) call (142 calls); reference outcome of each call = that single call in a fresh interpreter process (cwd=/repo and cwd=/, sockets stubbed to detect '
     'network use). From a restored pristine state all length-1 histories, ordered pairs (quick: those sharing a schema or document; thorough: all 20 164), all triples over '
     'calls sharing a cache key and saturated histories (19/20/21 distinct keys before and around every probe, incl. the expect_failure twin) are executed on the real '
-    'functions; every call outcome must equal its fresh outcome. Bundled valid samples must validate and invalid ones must not.',
+    'functions; every call outcome must equal its fresh outcome. Bundled valid samples must validate and invalid ones must not. Further histories: derived '
+    'validator classes, mismatched document/schema pairs, all triples over a reduced alphabet of 25 calls, a change of working directory between two calls, '
+    'temporary documents created, validated and deleted in turn.',
     'Restoring captured athlib module state is taken as equivalent to a fresh process (checked on all length-1 histories); histories longer than 3 only in the saturated families.',
     'explicit enumeration of call histories on the real code against fresh-process reference outcomes', 'DESIGN.md 2.4, 3/C19')
 
